@@ -4,12 +4,13 @@ import OW.Kernels.Groups.Conversion
 import OW.Kernels.Groups.RR
 import OW.Kernels.Groups.Storage
 import OW.Kernels.Groups.Climate
+import OW.Kernels.Groups.Misc
 /- All kernel models, by catalogue name. -/
 namespace OW.Kernels
 
 def all {α} [Num α] : List (KModel α) :=
   Groups.Constituent.models ++ Groups.FlowRouting.models ++ Groups.Conversion.models ++
-  Groups.RR.models ++ Groups.Storage.models ++ Groups.Climate.models
+  Groups.RR.models ++ Groups.Storage.models ++ Groups.Climate.models ++ Groups.Misc.models
 
 def find {α} [Num α] (name : String) : Option (KModel α) :=
   all.find? (·.name == name)
